@@ -203,7 +203,7 @@ Section VisitBounds.
   Variable robots : vstr -> robots_result.
   Variable server : list req -> sresp.
 
-  Notation loop' := (loop urljoin parseable cfg consult server).
+  Notation loop' := (loop urljoin parseable cfg consult robots server).
 
   Lemma count_requests_app : forall a b, count_requests (a ++ b) = (count_requests a + count_requests b)%nat.
   Proof. intros. unfold count_requests. rewrite filter_app, app_length. reflexivity. Qed.
@@ -274,8 +274,13 @@ Section VisitBounds.
     destruct k; cbn [List.length]; lia.
   Qed.
 
-  Definition pre_events (w : wsess) (rq : req) : list event :=
-    [EConsult (rq_url rq) (c_strong_redirects cfg && tr_is_redirect (ws_tr w)) true; ERequest (kind_of (ws_loop w)) rq].
+  Definition pre_events (w : wsess) (hist : list req) (rq : req) : list event :=
+    EConsult (rq_url rq) (c_strong_redirects cfg && tr_is_redirect (ws_tr w)) true
+      :: robots_events cfg robots hist rq ++ [ERequest (kind_of (ws_loop w)) rq].
+
+  (* the visit stops at the robots.txt check of a later request (redirect target): no request *)
+  Definition robots_stop (w : wsess) (rq : req) (s : vstatus) : list event :=
+    [EConsult (rq_url rq) (c_strong_redirects cfg && tr_is_redirect (ws_tr w)) true; ERobots (rq_url rq); EStatus s].
 
   (* one unfolding of the loop, as a case list *)
   Lemma loop_step : forall f w hist ev r, loop' (S f) w hist = (ev, r) ->
@@ -284,12 +289,14 @@ Section VisitBounds.
        let waived := c_strong_redirects cfg && tr_is_redirect (ws_tr w) in
        ((consult (rq_url rq) waived = false /\ ev = [EConsult (rq_url rq) waived false; EStatus VSkipped] /\ r = Some VSkipped) \/
         (consult (rq_url rq) waived = true /\
-          ((exists s, ev = pre_events w rq ++ [EStatus s] /\ r = Some s /\
+          ((exists s, ev = robots_stop w rq s /\ r = Some s /\ hist <> [] /\ c_robots cfg = true /\
+                      ((s = VError /\ robots (rq_url rq) = RFail) \/ (s = VSkipped /\ robots (rq_url rq) = RDeny))) \/
+           (exists s, ev = pre_events w hist rq ++ [EStatus s] /\ r = Some s /\
                       (s = VError \/ exists status location w', server (hist ++ [rq]) = Resp status location /\
                          process_response urljoin parseable w rq status location = POk w' /\ ws_next w' = None)) \/
            (exists status location w' ev', server (hist ++ [rq]) = Resp status location /\
               process_response urljoin parseable w rq status location = POk w' /\ ws_next w' <> None /\
-              loop' f w' (hist ++ [rq]) = (ev', r) /\ ev = pre_events w rq ++ ev'))))).
+              loop' f w' (hist ++ [rq]) = (ev', r) /\ ev = pre_events w hist rq ++ ev'))))).
   Proof.
     intros f w hist ev r H. cbn [loop] in H.
     destruct (ws_next w) as [rq|] eqn:Hn; [right; exists rq; split; [reflexivity|] | left; inversion H; auto].
@@ -297,27 +304,70 @@ Section VisitBounds.
     destruct (consult (rq_url rq) (c_strong_redirects cfg && tr_is_redirect (ws_tr w))) eqn:Hc; cbn [negb] in H.
     2:{ left. inversion H; auto. }
     right. split; [reflexivity|].
-    destruct (server (hist ++ [rq])) as [status location|] eqn:Hs.
-    2:{ left. exists VError. inversion H. auto. }
-    destruct (process_response urljoin parseable w rq status location) as [w'|] eqn:Hp.
-    2:{ left. exists VError. inversion H. auto. }
-    destruct (process_response_cases _ _ _ _ _ Hp) as [C|[C|C]].
-    - destruct C as (Hl & Hr & Hnn & _). rewrite Hr in H. cbn [orb] in H.
-      destruct (loop' f w' (hist ++ [rq])) as [ev' r'] eqn:Hloop. inversion H; subst.
-      right. exists status, location, w', ev'. auto.
-    - destruct C as (Hl & Hr & Hnn & _). rewrite Hr, Hl in H. cbn [orb loop_eqb] in H.
-      destruct (loop' f w' (hist ++ [rq])) as [ev' r'] eqn:Hloop. inversion H; subst.
-      right. exists status, location, w', ev'. repeat split; auto. rewrite Hnn; discriminate.
-    - destruct C as (Hl & Hr & Hnn). rewrite Hr, Hl in H. cbn [orb loop_eqb] in H.
-      left. exists (final_status cfg status). inversion H; subst. repeat split.
-      right. exists status, location, w'. auto.
+    assert (Hstop : forall x, hop_robots cfg robots hist rq = Some x -> hist <> [] /\ c_robots cfg = true /\ robots (rq_url rq) = x).
+    { intros x E. unfold hop_robots in E. destruct hist; [discriminate|]. destruct (c_robots cfg); [|discriminate].
+      inversion E. repeat split. discriminate. }
+    assert (Hgo : (match hop_robots cfg robots hist rq with Some RFail | Some RDeny => False | _ => True end) ->
+      (let pre := EConsult (rq_url rq) (c_strong_redirects cfg && tr_is_redirect (ws_tr w)) true
+                   :: robots_events cfg robots hist rq ++ [ERequest (kind_of (ws_loop w)) rq] in
+       match server (hist ++ [rq]) with
+       | Fail => (pre ++ [EStatus VError], Some VError)
+       | Resp status location =>
+           match process_response urljoin parseable w rq status location with
+           | PProtocolError => (pre ++ [EStatus VError], Some VError)
+           | POk w' =>
+               if tr_is_redirect (ws_tr w') || loop_eqb (ws_loop w') LAuth
+               then let (ev, r) := loop' f w' (hist ++ [rq]) in (pre ++ ev, r)
+               else (pre ++ [EStatus (final_status cfg status)], Some (final_status cfg status))
+           end
+       end) = (ev, r) ->
+      (exists s, ev = pre_events w hist rq ++ [EStatus s] /\ r = Some s /\
+                      (s = VError \/ exists status location w', server (hist ++ [rq]) = Resp status location /\
+                         process_response urljoin parseable w rq status location = POk w' /\ ws_next w' = None)) \/
+           (exists status location w' ev', server (hist ++ [rq]) = Resp status location /\
+              process_response urljoin parseable w rq status location = POk w' /\ ws_next w' <> None /\
+              loop' f w' (hist ++ [rq]) = (ev', r) /\ ev = pre_events w hist rq ++ ev')).
+    { intros _ H'. cbn zeta in H'. fold (pre_events w hist rq) in H'.
+      destruct (server (hist ++ [rq])) as [status location|] eqn:Hs.
+      2:{ left. exists VError. inversion H'. auto. }
+      destruct (process_response urljoin parseable w rq status location) as [w'|] eqn:Hp.
+      2:{ left. exists VError. inversion H'. auto. }
+      destruct (process_response_cases _ _ _ _ _ Hp) as [C|[C|C]].
+      - destruct C as (Hl & Hr & Hnn & _). rewrite Hr in H'. cbn [orb] in H'.
+        destruct (loop' f w' (hist ++ [rq])) as [ev' r'] eqn:Hloop. inversion H'; subst.
+        right. exists status, location, w', ev'. auto.
+      - destruct C as (Hl & Hr & Hnn & _). rewrite Hr, Hl in H'. cbn [orb loop_eqb] in H'.
+        destruct (loop' f w' (hist ++ [rq])) as [ev' r'] eqn:Hloop. inversion H'; subst.
+        right. exists status, location, w', ev'. repeat split; auto. rewrite Hnn; discriminate.
+      - destruct C as (Hl & Hr & Hnn). rewrite Hr, Hl in H'. cbn [orb loop_eqb] in H'.
+        left. exists (final_status cfg status). inversion H'; subst. repeat split.
+        right. exists status, location, w'. auto. }
+    destruct (hop_robots cfg robots hist rq) as [[| |]|] eqn:Hh.
+    - right. apply Hgo; [exact I|exact H].
+    - left. destruct (Hstop _ eq_refl) as (A & B & C). exists VSkipped. inversion H. unfold robots_stop. auto 8.
+    - left. destruct (Hstop _ eq_refl) as (A & B & C). exists VError. inversion H. unfold robots_stop. auto 8.
+    - right. apply Hgo; [exact I|exact H].
   Qed.
 
-  Lemma count_pre : forall w rq, count_requests (pre_events w rq) = 1%nat.
-  Proof. reflexivity. Qed.
-  Lemma count_kind_pre : forall k w rq, count_kind k (pre_events w rq) =
+  Lemma count_requests_robots_events : forall hist rq, count_requests (robots_events cfg robots hist rq) = 0%nat.
+  Proof. intros. unfold robots_events. destruct (hop_robots _ _ _ _); reflexivity. Qed.
+  Lemma count_kind_robots_events : forall k hist rq, count_kind k (robots_events cfg robots hist rq) = 0%nat.
+  Proof. intros. unfold robots_events. destruct (hop_robots _ _ _ _); destruct k; reflexivity. Qed.
+  Lemma count_pre : forall w hist rq, count_requests (pre_events w hist rq) = 1%nat.
+  Proof.
+    intros. unfold pre_events. change (EConsult ?u ?b true :: ?l) with ([EConsult u b true] ++ l).
+    rewrite !count_requests_app, count_requests_robots_events. reflexivity.
+  Qed.
+  Lemma count_kind_pre : forall k w hist rq, count_kind k (pre_events w hist rq) =
     b2n (match k, ws_loop w with KInitial, LNormal | KFollowup, LRedirect | KAuthRetry, LAuth => true | _, _ => false end).
-  Proof. intros k w rq. unfold count_kind, pre_events. cbn. destruct k, (ws_loop w); reflexivity. Qed.
+  Proof.
+    intros k w hist rq. unfold pre_events. change (EConsult ?u ?b true :: ?l) with ([EConsult u b true] ++ l).
+    rewrite !count_kind_app, count_kind_robots_events. unfold count_kind. cbn. destruct k, (ws_loop w); reflexivity.
+  Qed.
+  Lemma count_robots_stop : forall w rq s, count_requests (robots_stop w rq s) = 0%nat.
+  Proof. reflexivity. Qed.
+  Lemma count_kind_robots_stop : forall k w rq s, count_kind k (robots_stop w rq s) = 0%nat.
+  Proof. intros. destruct k; reflexivity. Qed.
 
   (* B1: the main bounds, for every server, by induction on the fuel *)
   Theorem loop_bounds : forall f w hist ev r, loop' f w hist = (ev, r) ->
@@ -328,9 +378,10 @@ Section VisitBounds.
   Proof.
     induction f as [|f IH]; intros w hist ev r H.
     { inversion H; subst. cbn. repeat split; lia. }
-    destruct (loop_step _ _ _ _ _ H) as [(Hn & -> & ->)|(rq & Hn & [(Hc & -> & ->)|(Hc & [(s & -> & -> & _)|(status & location & w' & ev' & Hs & Hp & Hnn & Hl & ->)])])].
+    destruct (loop_step _ _ _ _ _ H) as [(Hn & -> & ->)|(rq & Hn & [(Hc & -> & ->)|(Hc & [(s0 & -> & -> & _)|[(s & -> & -> & _)|(status & location & w' & ev' & Hs & Hp & Hnn & Hl & ->)]])])].
     - cbn. repeat split; lia.
     - cbn. repeat split; lia.
+    - rewrite count_robots_stop, !count_kind_robots_stop. repeat split; lia.
     - rewrite count_requests_app, !count_kind_app, count_pre, !count_kind_pre.
       unfold pot. cbn [count_requests count_kind List.filter is_request is_kind List.length].
       destruct (ws_loop w); cbn [b2n is_auth is_redir is_normal loop_eqb]; repeat split; lia.
@@ -355,7 +406,7 @@ Section VisitBounds.
   Proof.
     induction f as [|f IH]; intros w hist Hf; [lia|].
     destruct (loop' (S f) w hist) as [ev r] eqn:H. cbn [snd].
-    destruct (loop_step _ _ _ _ _ H) as [(Hn & -> & ->)|(rq & Hn & [(Hc & -> & ->)|(Hc & [(s & -> & -> & _)|(status & location & w' & ev' & Hs & Hp & Hnn & Hl & ->)])])];
+    destruct (loop_step _ _ _ _ _ H) as [(Hn & -> & ->)|(rq & Hn & [(Hc & -> & ->)|(Hc & [(s0 & -> & -> & _)|[(s & -> & -> & _)|(status & location & w' & ev' & Hs & Hp & Hnn & Hl & ->)]])])];
       try discriminate.
     assert (Hpot : (pot w' < pot w)%nat).
     { destruct (process_response_cases _ _ _ _ _ Hp) as [C|[C|C]].
@@ -371,17 +422,22 @@ Section VisitBounds.
     specialize (IH w' (hist ++ [rq]) ltac:(lia)). rewrite Hl in IH. exact IH.
   Qed.
 
+  Lemma pre_events_no_status : forall w hist rq,
+    forallb (fun e => match e with EStatus _ => false | _ => true end) (pre_events w hist rq) = true.
+  Proof. intros. unfold pre_events, robots_events. destruct (hop_robots _ _ _ _); reflexivity. Qed.
+
   (* B3: a visit that ends, ends in exactly one status event, the last one *)
   Theorem loop_ends_in_status : forall f w hist ev s, loop' f w hist = (ev, Some s) ->
     exists ev0, ev = ev0 ++ [EStatus s] /\ forallb (fun e => match e with EStatus _ => false | _ => true end) ev0 = true.
   Proof.
     induction f as [|f IH]; intros w hist ev s H; [inversion H|].
-    destruct (loop_step _ _ _ _ _ H) as [(Hn & -> & Hr)|(rq & Hn & [(Hc & -> & Hr)|(Hc & [(s' & -> & Hr & _)|(status & location & w' & ev' & Hs & Hp & Hnn & Hl & ->)])])].
+    destruct (loop_step _ _ _ _ _ H) as [(Hn & -> & Hr)|(rq & Hn & [(Hc & -> & Hr)|(Hc & [(s0 & -> & Hr & _)|[(s' & -> & Hr & _)|(status & location & w' & ev' & Hs & Hp & Hnn & Hl & ->)]])])].
     - inversion Hr; subst. exists []. split; reflexivity.
     - inversion Hr; subst. eexists [_]. split; reflexivity.
-    - inversion Hr; subst. exists (pre_events w rq). split; reflexivity.
-    - destruct (IH _ _ _ _ Hl) as (ev0 & -> & Hall). exists (pre_events w rq ++ ev0).
-      split; [rewrite app_assoc; reflexivity|]. rewrite forallb_app, Hall. reflexivity.
+    - inversion Hr; subst. eexists [_; _]. split; reflexivity.
+    - inversion Hr; subst. exists (pre_events w hist rq). split; [reflexivity|]. apply pre_events_no_status.
+    - destruct (IH _ _ _ _ Hl) as (ev0 & -> & Hall). exists (pre_events w hist rq ++ ev0).
+      split; [rewrite app_assoc; reflexivity|]. rewrite forallb_app, Hall, pre_events_no_status. reflexivity.
   Qed.
 
   (* B4: without 307/308 answers (or without a password) at most ONE authentication retry *)
@@ -400,9 +456,10 @@ Section VisitBounds.
   Proof.
     induction f as [|f IH]; intros w hist ev r G Hrep H.
     { inversion H; subst. cbn. lia. }
-    destruct (loop_step _ _ _ _ _ H) as [(Hn & -> & ->)|(rq & Hn & [(Hc & -> & ->)|(Hc & [(s & -> & -> & _)|(status & location & w' & ev' & Hs & Hp & Hnn & Hl & ->)])])].
+    destruct (loop_step _ _ _ _ _ H) as [(Hn & -> & ->)|(rq & Hn & [(Hc & -> & ->)|(Hc & [(s0 & -> & -> & _)|[(s & -> & -> & _)|(status & location & w' & ev' & Hs & Hp & Hnn & Hl & ->)]])])].
     - cbn. lia.
     - cbn. lia.
+    - rewrite count_kind_robots_stop. lia.
     - rewrite count_kind_app, count_kind_pre. unfold auth_budget. rewrite Hn.
       destruct (ws_loop w); cbn; lia.
     - rewrite count_kind_app, count_kind_pre.
@@ -621,13 +678,19 @@ Section Checked.
   Variable robots : vstr -> robots_result.
   Variable server : list req -> sresp.
 
-  (* request k rq at this place of the trace is covered by the consult event right before it *)
+  (* request k rq at this place of the trace is covered by the passing consult event before it:
+     directly before it, or with only the robots.txt consultation for the same URL in between *)
   Definition covered (pre : list event) (k : rkind) (rq : req) : Prop :=
-    exists pre' w, pre = pre' ++ [EConsult (rq_url rq) w true] /\ consult (rq_url rq) w = true /\
+    exists pre' w rb, pre = pre' ++ EConsult (rq_url rq) w true :: rb /\ (rb = [] \/ rb = [ERobots (rq_url rq)]) /\
+      consult (rq_url rq) w = true /\
       (w = true -> c_strong_redirects cfg = true /\ k = KFollowup).
 
   Definition all_covered (ev : list event) : Prop :=
     forall pre k rq post, ev = pre ++ ERequest k rq :: post -> covered pre k rq.
+
+  (* a robots.txt consultation for x comes directly after a passing consult of the filters on x *)
+  Definition robots_after_consult (ev : list event) : Prop :=
+    forall pre x post, ev = pre ++ ERobots x :: post -> exists pre' w, pre = pre' ++ [EConsult x w true] /\ consult x w = true.
 
   (* the session is in redirect state exactly when the tracker holds a redirect response *)
   Definition redir_inv (w : wsess) : Prop := tr_is_redirect (ws_tr w) = true -> ws_loop w = LRedirect.
@@ -652,90 +715,149 @@ Section Checked.
         * right. exists pre'. auto.
   Qed.
 
-  Lemma covered_in_pre : forall w rq, redir_inv w ->
-    consult (rq_url rq) (c_strong_redirects cfg && tr_is_redirect (ws_tr w)) = true ->
-    forall pre k rq0 post, pre_events cfg w rq = pre ++ ERequest k rq0 :: post -> covered pre k rq0.
+  Lemma app_eq_cons_robots : forall (a b : list event) pre x post,
+    a ++ b = pre ++ ERobots x :: post ->
+    (exists post', a = pre ++ ERobots x :: post' /\ post = post' ++ b) \/
+    (exists pre', pre = a ++ pre' /\ b = pre' ++ ERobots x :: post).
   Proof.
-    intros w rq Hinv Hc pre k rq0 post E. unfold pre_events in E.
-    destruct pre as [|e1 pre]; cbn in E; [discriminate|]. inversion E; subst e1; clear E.
-    destruct pre as [|e2 pre]; cbn in H1; [|inversion H1; destruct pre; discriminate].
-    inversion H1; subst; clear H1.
-    exists [], (c_strong_redirects cfg && tr_is_redirect (ws_tr w)). split; [reflexivity|]. split; [exact Hc|].
-    intros Hw. apply andb_true_iff in Hw as [Hs Hr]. split; [exact Hs|]. rewrite (Hinv Hr). reflexivity.
+    induction a as [|y a IH]; intros b pre x post H.
+    - right. exists pre. auto.
+    - destruct pre as [|z pre]; cbn in H; inversion H; subst.
+      + left. exists a. auto.
+      + destruct (IH _ _ _ _ H2) as [(post' & -> & ->)|(pre' & -> & ->)].
+        * left. exists post'. auto.
+        * right. exists pre'. auto.
+  Qed.
+
+  Lemma pre_events_shape : forall w hist rq,
+    pre_events cfg robots w hist rq = [EConsult (rq_url rq) (c_strong_redirects cfg && tr_is_redirect (ws_tr w)) true; ERequest (kind_of (ws_loop w)) rq]
+    \/ pre_events cfg robots w hist rq = [EConsult (rq_url rq) (c_strong_redirects cfg && tr_is_redirect (ws_tr w)) true; ERobots (rq_url rq); ERequest (kind_of (ws_loop w)) rq].
+  Proof. intros. unfold pre_events, robots_events. destruct (hop_robots _ _ _ _); [right|left]; reflexivity. Qed.
+
+  Lemma covered_in_pre : forall w hist rq, redir_inv w ->
+    consult (rq_url rq) (c_strong_redirects cfg && tr_is_redirect (ws_tr w)) = true ->
+    forall pre k rq0 post, pre_events cfg robots w hist rq = pre ++ ERequest k rq0 :: post -> covered pre k rq0.
+  Proof.
+    intros w hist rq Hinv Hc pre k rq0 post E.
+    assert (Hw : c_strong_redirects cfg && tr_is_redirect (ws_tr w) = true -> c_strong_redirects cfg = true /\ kind_of (ws_loop w) = KFollowup).
+    { intros Hw. apply andb_true_iff in Hw as [Hs Hr]. split; [exact Hs|]. rewrite (Hinv Hr). reflexivity. }
+    destruct (pre_events_shape w hist rq) as [S|S]; rewrite S in E.
+    - destruct pre as [|e1 [|e2 pre]]; cbn in E; inversion E; subst; try (destruct pre; discriminate).
+      exists [], (c_strong_redirects cfg && tr_is_redirect (ws_tr w)), []. auto.
+    - destruct pre as [|e1 [|e2 [|e3 pre]]]; cbn in E; inversion E; subst; try (destruct pre; discriminate).
+      exists [], (c_strong_redirects cfg && tr_is_redirect (ws_tr w)), [ERobots (rq_url rq0)]. auto.
+  Qed.
+
+  Lemma robots_in_pre : forall w hist rq,
+    consult (rq_url rq) (c_strong_redirects cfg && tr_is_redirect (ws_tr w)) = true ->
+    forall pre x post, pre_events cfg robots w hist rq = pre ++ ERobots x :: post ->
+    exists pre' wv, pre = pre' ++ [EConsult x wv true] /\ consult x wv = true.
+  Proof.
+    intros w hist rq Hc pre x post E.
+    destruct (pre_events_shape w hist rq) as [S|S]; rewrite S in E.
+    - destruct pre as [|e1 [|e2 [|e3 pre]]]; cbn in E; inversion E.
+    - destruct pre as [|e1 [|e2 [|e3 [|e4 pre]]]]; cbn in E; inversion E; subst.
+      exists [], (c_strong_redirects cfg && tr_is_redirect (ws_tr w)). auto.
   Qed.
 
   Lemma covered_shift : forall a pre k rq, covered pre k rq -> covered (a ++ pre) k rq.
-  Proof. intros a pre k rq (p' & wv & -> & Hc & Hw). exists (a ++ p'), wv. rewrite app_assoc. auto. Qed.
+  Proof. intros a pre k rq (p' & wv & rb & -> & Hrb & Hc & Hw). exists (a ++ p'), wv, rb. rewrite app_assoc. auto. Qed.
+
+  Lemma robots_shift : forall a pre x, (exists pre' w, pre = pre' ++ [EConsult x w true] /\ consult x w = true) ->
+    exists pre' w, a ++ pre = pre' ++ [EConsult x w true] /\ consult x w = true.
+  Proof. intros a pre x (p' & wv & -> & Hc). exists (a ++ p'), wv. rewrite app_assoc. auto. Qed.
+
+  Lemma robots_after_consult_nil_like : forall ev,
+    forallb (fun e => match e with ERobots _ => false | _ => true end) ev = true -> robots_after_consult ev.
+  Proof.
+    intros ev H pre x post E. subst ev. rewrite forallb_app in H. apply andb_true_iff in H as [_ H].
+    cbn in H. discriminate.
+  Qed.
 
   Lemma loop_all_covered : forall f w hist ev r, redir_inv w ->
-    loop urljoin parseable cfg consult server f w hist = (ev, r) -> all_covered ev.
+    loop urljoin parseable cfg consult robots server f w hist = (ev, r) -> all_covered ev /\ robots_after_consult ev.
   Proof.
     induction f as [|f IH]; intros w hist ev r Hinv H.
-    { inversion H; subst. apply all_covered_nil_like. reflexivity. }
-    destruct (loop_step _ _ _ _ _ _ _ _ _ _ H) as [(Hn & -> & ->)|(rq & Hn & [(Hc & -> & ->)|(Hc & [(s & -> & -> & _)|(status & location & w' & ev' & Hs & Hp & Hnn & Hl & ->)])])].
-    - apply all_covered_nil_like. reflexivity.
-    - apply all_covered_nil_like. reflexivity.
-    - intros pre k rq0 post E.
-      destruct (app_eq_cons_request _ _ _ _ _ _ E) as [(post' & E1 & _)|(pre' & -> & E2)].
-      + eapply (covered_in_pre w rq Hinv Hc); exact E1.
-      + destruct pre' as [|? [|? ?]]; cbn in E2; inversion E2.
+    { inversion H; subst. split; [apply all_covered_nil_like|apply robots_after_consult_nil_like]; reflexivity. }
+    destruct (loop_step _ _ _ _ _ _ _ _ _ _ _ H) as [(Hn & -> & ->)|(rq & Hn & [(Hc & -> & ->)|(Hc & [(s0 & -> & -> & _)|[(s & -> & -> & _)|(status & location & w' & ev' & Hs & Hp & Hnn & Hl & ->)]])])].
+    - split; [apply all_covered_nil_like|apply robots_after_consult_nil_like]; reflexivity.
+    - split; [apply all_covered_nil_like|apply robots_after_consult_nil_like]; reflexivity.
+    - split; [apply all_covered_nil_like; reflexivity|].
+      intros pre x post E. unfold robots_stop in E.
+      destruct pre as [|e1 [|e2 [|e3 [|e4 pre]]]]; cbn in E; inversion E; subst.
+      exists [], (c_strong_redirects cfg && tr_is_redirect (ws_tr w)). auto.
+    - split.
+      + intros pre k rq0 post E.
+        destruct (app_eq_cons_request _ _ _ _ _ _ E) as [(post' & E1 & _)|(pre' & -> & E2)].
+        * eapply (covered_in_pre w hist rq Hinv Hc); exact E1.
+        * destruct pre' as [|? [|? ?]]; cbn in E2; inversion E2.
+      + intros pre x post E.
+        destruct (app_eq_cons_robots _ _ _ _ _ E) as [(post' & E1 & _)|(pre' & -> & E2)].
+        * eapply (robots_in_pre w hist rq Hc); exact E1.
+        * destruct pre' as [|? [|? ?]]; cbn in E2; inversion E2.
     - assert (Hinv' : redir_inv w').
       { intros Hr. destruct (process_response_cases _ _ _ _ _ _ _ Hp) as [C|[C|C]].
         - destruct C as (Hl' & _). exact Hl'.
         - destruct C as (_ & Hnr & _). congruence.
         - destruct C as (_ & Hnr & _). congruence. }
-      specialize (IH _ _ _ _ Hinv' Hl).
-      intros pre k rq0 post E.
-      destruct (app_eq_cons_request _ _ _ _ _ _ E) as [(post' & E1 & _)|(pre' & -> & E2)].
-      + eapply (covered_in_pre w rq Hinv Hc); exact E1.
-      + apply covered_shift. eapply IH. exact E2.
+      destruct (IH _ _ _ _ Hinv' Hl) as [IHc IHr]. split.
+      + intros pre k rq0 post E.
+        destruct (app_eq_cons_request _ _ _ _ _ _ E) as [(post' & E1 & _)|(pre' & -> & E2)].
+        * eapply (covered_in_pre w hist rq Hinv Hc); exact E1.
+        * apply covered_shift. eapply IHc. exact E2.
+      + intros pre x post E.
+        destruct (app_eq_cons_robots _ _ _ _ _ E) as [(post' & E1 & _)|(pre' & -> & E2)].
+        * eapply (robots_in_pre w hist rq Hc); exact E1.
+        * apply robots_shift. eapply IHr. exact E2.
   Qed.
 
-  (* C02, engine clause: in a visit, every request on the wire is directly preceded by a PASSING
-     consult of the filters on exactly the URL requested (with the record of the item visited);
-     the consult is a waived one (is_redirect = True) only for the follow-up of a redirect response
-     and only with strong redirects enabled; robots.txt handling (whose requests are the
-     documented exception, C20) is started only for the item's own URL after it passed unwaived *)
+  (* C02, engine clause: in a visit, every request on the wire is preceded by a PASSING consult of
+     the filters on exactly the URL requested (with the record of the item visited) - directly, or
+     with only the robots.txt consultation for that same URL in between; the consult is a waived one
+     (is_redirect = True) only for the follow-up of a redirect response and only with strong
+     redirects enabled; robots.txt handling (whose requests are the documented exception, C20) is
+     started only for a URL that has just passed the filters: the item's own URL (unwaived), or the
+     URL of a later request of the visit (the target of a redirect) *)
   Theorem every_request_checked : forall fuel u ev r,
     process_item urljoin parseable cfg consult robots server fuel u = (ev, r) ->
-    all_covered ev /\
-    (forall pre x post, ev = pre ++ ERobots x :: post -> x = u /\ pre = [EConsult u false true] /\ consult u false = true).
+    all_covered ev /\ robots_after_consult ev /\
+    (forall x post, ev = [EConsult u false true] ++ ERobots x :: post -> x = u).
   Proof.
     intros fuel u ev r H.
     destruct (process_item_cases _ _ _ _ _ _ _ _ _ _ H) as [(_ & -> & _)|[(Hc & _ & _ & -> & _)|[(Hc & _ & _ & -> & _)|(Hc & ev' & Hl & Hev)]]].
-    - split; [apply all_covered_nil_like; reflexivity|].
-      intros pre x post E. destruct pre as [|? [|? [|? ?]]]; cbn in E; inversion E.
-    - split; [apply all_covered_nil_like; reflexivity|].
-      intros pre x post E. destruct pre as [|? [|? [|? [|? ?]]]]; cbn in E; inversion E; subst. auto.
-    - split; [apply all_covered_nil_like; reflexivity|].
-      intros pre x post E. destruct pre as [|? [|? [|? [|? ?]]]]; cbn in E; inversion E; subst. auto.
-    - assert (Hcov : all_covered ev').
+    - split; [apply all_covered_nil_like; reflexivity|]. split; [apply robots_after_consult_nil_like; reflexivity|].
+      intros x post E. inversion E.
+    - split; [apply all_covered_nil_like; reflexivity|]. split.
+      + intros pre x post E. destruct pre as [|? [|? [|? [|? ?]]]]; cbn in E; inversion E; subst. exists [], false. auto.
+      + intros x post E. inversion E. reflexivity.
+    - split; [apply all_covered_nil_like; reflexivity|]. split.
+      + intros pre x post E. destruct pre as [|? [|? [|? [|? ?]]]]; cbn in E; inversion E; subst. exists [], false. auto.
+      + intros x post E. inversion E. reflexivity.
+    - assert (Hcov : all_covered ev' /\ robots_after_consult ev').
       { eapply loop_all_covered; [|exact Hl]. intros Hr. cbn in Hr. discriminate. }
-      assert (Hnor : forall pre x post, ev' = pre ++ ERobots x :: post -> False).
-      { clear - Hl. revert Hl. generalize (new_session {| rq_url := u; rq_pw := c_password cfg |} (c_max_redirects cfg)).
-        generalize (@nil req). revert ev' r. induction fuel as [|f IH]; intros ev' r hist w Hl pre x post E.
-        - inversion Hl; subst. destruct pre; discriminate.
-        - destruct (loop_step _ _ _ _ _ _ _ _ _ _ Hl) as [(Hn & -> & ->)|(rq & Hn & [(Hc & -> & ->)|(Hc & [(s & -> & -> & _)|(status & location & w' & ev2 & Hs & Hp & Hnn & Hl2 & ->)])])].
-          + destruct pre as [|? [|? ?]]; inversion E.
-          + destruct pre as [|? [|? [|? ?]]]; inversion E.
-          + destruct pre as [|? [|? [|? [|? ?]]]]; inversion E.
-          + destruct pre as [|? [|? pre]]; cbn in E; inversion E. eapply IH; [exact Hl2|]. eassumption. }
+      destruct Hcov as [Hcov Hrob].
       destruct Hev as [(_ & _ & ->)|(_ & ->)].
-      + split.
+      + split; [|split].
         * intros pre k rq post E. change (EConsult u false true :: ERobots u :: ev') with ([EConsult u false true; ERobots u] ++ ev') in E.
           destruct (app_eq_cons_request _ _ _ _ _ _ E) as [(post' & E1 & _)|(pre' & -> & E2)].
           -- destruct pre as [|? [|? [|? ?]]]; cbn in E1; inversion E1.
           -- apply covered_shift. eapply Hcov. exact E2.
-        * intros pre x post E. destruct pre as [|e1 pre]; cbn in E; [inversion E|].
-          destruct pre as [|e2 pre]; cbn in E; inversion E; subst;
-            first [ solve [auto] | exfalso; eapply Hnor; reflexivity ].
-      + split.
+        * intros pre x post E. change (EConsult u false true :: ERobots u :: ev') with ([EConsult u false true; ERobots u] ++ ev') in E.
+          destruct (app_eq_cons_robots _ _ _ _ _ E) as [(post' & E1 & _)|(pre' & -> & E2)].
+          -- destruct pre as [|? [|? [|? ?]]]; cbn in E1; inversion E1; subst. exists [], false. auto.
+          -- apply robots_shift. eapply Hrob. exact E2.
+        * intros x post E. inversion E. reflexivity.
+      + split; [|split].
         * intros pre k rq post E. change (EConsult u false true :: ev') with ([EConsult u false true] ++ ev') in E.
           destruct (app_eq_cons_request _ _ _ _ _ _ E) as [(post' & E1 & _)|(pre' & -> & E2)].
           -- destruct pre as [|? [|? ?]]; cbn in E1; inversion E1.
           -- apply covered_shift. eapply Hcov. exact E2.
-        * intros pre x post E. destruct pre as [|e1 pre]; cbn in E; inversion E; subst.
-          exfalso; eapply Hnor; reflexivity.
+        * intros pre x post E. change (EConsult u false true :: ev') with ([EConsult u false true] ++ ev') in E.
+          destruct (app_eq_cons_robots _ _ _ _ _ E) as [(post' & E1 & _)|(pre' & -> & E2)].
+          -- destruct pre as [|? [|? ?]]; cbn in E1; inversion E1.
+          -- apply robots_shift. eapply Hrob. exact E2.
+        * intros x post E. cbn in E. inversion E as [E']. subst ev'.
+          destruct (Hrob [] x post eq_refl) as (p' & wv & Ep & _). destruct p'; discriminate.
   Qed.
 End Checked.
 
